@@ -356,6 +356,13 @@ type c17Runner struct {
 	everKeys map[string]bool // every key used in this case (for complete re-reads of snapshots)
 	// empty-value bookkeeping (known finding)
 	emptyReloaded bool // a reload happened while an empty value was stored
+	// reused verifier (C18): one trie object that knows only a root hash and is asked to Prove
+	// many times, with Flush / ClearCache / reload-from-hash in between
+	vsrc  trie.Snapshot // the trie the genuine proofs come from
+	vver  trie.Snapshot
+	vmgr  trie.Manager
+	vroot []byte
+	vref  map[string][]byte
 	dead          bool // Delete panicked: the trie may be half-updated, the rest of the case is skipped
 }
 
@@ -508,6 +515,8 @@ func c17Mutate(p0 [][]byte, kind, a, b, c int, x []byte) [][]byte {
 		if i+1 < n {
 			p[i], p[i+1] = p[i+1], p[i]
 		}
+	case 7:
+		p[i] = x
 	}
 	return p
 }
@@ -798,6 +807,54 @@ func (r *c17Runner) Step(t []string, o *Oracle) string {
 		}
 		x := unhx(t[6])
 		return r.prove(o, unhx(t[1]), func(p [][]byte) [][]byte { return c17Mutate(p, kind, a, b, c, x) }, kind)
+	case t[0] == "vnew" && len(t) == 1:
+		r.vsrc = r.mut.GetSnapshot()
+		r.vroot = r.vsrc.Hash()
+		r.vref = c17CopyRef(r.ref)
+		r.vmgr = trie_manager.New(db.NewMapDB())
+		r.vver = r.vmgr.NewMutable(r.vroot).GetSnapshot()
+		o.Count("verifier-new")
+		return "ok"
+	case (t[0] == "vflush" || t[0] == "vclear" || t[0] == "vreload") && len(t) == 1:
+		if r.vver == nil {
+			return "bad-op"
+		}
+		switch t[0] {
+		case "vflush":
+			if err := r.vver.Flush(); err != nil {
+				return "err"
+			}
+		case "vclear":
+			r.vver.ClearCache()
+		default:
+			r.vver = r.vmgr.NewMutable(r.vroot).GetSnapshot()
+		}
+		o.Count("verifier-" + t[0][1:])
+		return "ok"
+	case t[0] == "vprove" && len(t) == 2:
+		if r.vver == nil {
+			return "bad-op"
+		}
+		return r.vprove(o, unhx(t[1]), r.vsrc, nil, -1)
+	case t[0] == "vpmut" && len(t) == 7:
+		if r.vver == nil {
+			return "bad-op"
+		}
+		kind, e1 := strconv.Atoi(t[2])
+		a, e2 := strconv.Atoi(t[3])
+		b, e3 := strconv.Atoi(t[4])
+		c, e4 := strconv.Atoi(t[5])
+		if e1 != nil || e2 != nil || e3 != nil || e4 != nil || kind < 0 || a < 0 || b < 0 || c < 0 {
+			return "bad-op"
+		}
+		x := unhx(t[6])
+		return r.vprove(o, unhx(t[1]), r.vsrc, func(p [][]byte) [][]byte { return c17Mutate(p, kind, a, b, c, x) }, kind)
+	case t[0] == "vother" && len(t) == 3:
+		j, okj := r.snapIdx(t[1])
+		if r.vver == nil || !okj {
+			return "bad-op"
+		}
+		return r.vprove(o, unhx(t[2]), r.snaps[j], nil, -2)
 	case t[0] == "pother" && len(t) == 3:
 		k, k2 := unhx(t[1]), unhx(t[2])
 		s := r.mut.GetSnapshot()
@@ -859,6 +916,66 @@ func (r *c17Runner) checkRoot(o *Oracle, h []byte) {
 		o.Check(bytes.Equal(want, want2), r.key("root-depends-on-insertion-order"), "ascending insertion gives %x, descending %x", want, want2)
 	}
 	o.Check((h == nil) == (len(r.ref) == 0), r.key("root-nil-iff-empty"), "root %x with %d pairs", h, len(r.ref))
+}
+
+func c17ProveOn(o *Oracle, im trie.Immutable, k []byte, p [][]byte) (out string, val []byte, ok bool) {
+	defer func() {
+		if e := recover(); e != nil {
+			o.Check(false, c17PanicHonest, "Prove(%x, %s) on a reused verifier panics: %v", k, c17ProofOut(p), e)
+			out, val, ok = "panic", nil, false
+		}
+	}()
+	v, err := im.Prove(k, p)
+	if err == nil {
+		return "ok " + hx(v), v, true
+	}
+	if errors.NotFoundError.Equals(err) {
+		return "notfound", nil, false
+	}
+	return "reject", nil, false
+}
+
+// vprove: Prove on the REUSED verifier. src is the trie the proof is taken from (the verifier's own
+// source, or another snapshot = another root); mut alters the proof. Whatever the verifier cached,
+// flushed or reloaded before, it must answer exactly like a fresh verifier: accept only the stored
+// value, and of altered proofs only those that merely append elements to the genuine one.
+func (r *c17Runner) vprove(o *Oracle, k []byte, src trie.Snapshot, mut func([][]byte) [][]byte, kind int) string {
+	p := src.GetProof(k)
+	if p == nil {
+		o.Count("verifier-noproof")
+		return "noproof"
+	}
+	genuine := r.vsrc.GetProof(k)
+	q := p
+	if mut != nil {
+		q = mut(p)
+	}
+	want, had := r.vref[string(k)]
+	out, v, ok := c17ProveOn(o, r.vver, k, q)
+	if ok {
+		o.Check(had && bytes.Equal(v, want), "prove-yields-wrong-value", "reused verifier: Prove(%x) yields %x, stored %x (present %v)", k, v, want, had)
+		o.Check(genuine != nil && (c17ProofEq(genuine, q) || c17IsPrefixProof(genuine, q)), "altered-proof-accepted", "reused verifier accepts an altered proof (kind %d) of %x: genuine %s, given %s", kind, k, c17ProofOut(genuine), c17ProofOut(q))
+		o.Count("verifier-accepted")
+	} else {
+		o.Count("verifier-refused")
+	}
+	// the same call again: a rejected (or accepted) proof must get the same verdict — a first
+	// attempt must not poison or prime the verifier
+	out2, _, _ := c17ProveOn(o, r.vver, k, q)
+	o.Check(out == out2, "prove-repeat-differs", "reused verifier: Prove(%x) %s then %s for the same proof", k, out, out2)
+	// and the genuine proof still verifies afterwards
+	if genuine != nil {
+		out3, v3, ok3 := c17ProveOn(o, r.vver, k, genuine)
+		if had {
+			o.Check(ok3 && bytes.Equal(v3, want), "proof-of-stored-key-refused", "reused verifier: genuine proof of stored key %x gives %s after an altered attempt", k, out3)
+		} else {
+			o.Check(!ok3, "absent-key-proved", "reused verifier: Prove(%x) = %s for an absent key", k, out3)
+		}
+	}
+	// a fresh verifier agrees
+	outF, _, _ := c17Prove(o, r.vroot, k, q, c17PanicHonest)
+	o.Check(out == outF, "verifier-state-changes-verdict", "Prove(%x): reused verifier says %s, fresh verifier says %s", k, out, outF)
+	return out
 }
 
 // prove: honest proof (mut == nil) or a mutated one; the C18 oracle
